@@ -121,7 +121,7 @@ MC = {
     "fees": dict(
         cfg=base_cfg(init={"BTC": 3, "USD": 12}, feeMode="pct", feeN=1, feeD=10, minFeeN=1, minFeeD=2,
                      liqMode="share", vlN=1, vlD=2),
-        req=reqset(["market", "limit"], [1, 3], [2, 3], [2]), bars=barset([2, 3], [0, 3, 5]),
+        req=reqset(["market", "limit", "stop"], [1, 3], [2, 3], [2]), bars=barset([2, 3], [0, 5, 6]),
         loans="{}", bounds=dict(MaxOrders=2, MaxLoans=0, MaxBars=3, MaxCalls=3), times=[1]),
     # base precision 1 (scale 10): rounding of quote amounts and fees
     "rounding": dict(
@@ -150,6 +150,13 @@ MC = {
         req=reqset(["limit", "market"], [1], [2], [2], ab=[True], ar=[False]), bars=barset([2], [4]),
         loans="{[sym |-> \"BTC\", amount |-> 1]}",
         bounds=dict(MaxOrders=2, MaxLoans=3, MaxBars=2, MaxCalls=3), times=[1]),
+    # margin lending with finite liquidity: auto-repay orders that fill partially and get cancelled
+    "margin_partial": dict(
+        cfg=base_cfg(init={"BTC": 0, "USD": 8}, liqMode="share", vlN=1, vlD=2, lendMode="margin", reqD=2,
+                     cond={"BTC": margin_cond("BTC", 0, 1, 1, 0, 1), "USD": margin_cond("USD", 0, 1, 1, 0, 1)}),
+        req=reqset(["limit"], [3], [2], [2], ab=[False], ar=[True]), bars=barset([2], [2, 4]),
+        loans="{[sym |-> \"BTC\", amount |-> 1], [sym |-> \"BTC\", amount |-> 2]}",
+        bounds=dict(MaxOrders=1, MaxLoans=2, MaxBars=3, MaxCalls=4), times=[1]),
     # two pairs sharing the quote symbol: orders competing for the same funds inside one timestamp
     "twopairs": dict(
         cfg=base_cfg(syms=["BTC", "ETH", "USD"], scale={"BTC": 1, "ETH": 1, "USD": 1},
@@ -168,7 +175,7 @@ MC_FOR = {
     "C08": (["fees"], ["rounding", "orders"]),
     "C09": (["fees", "rounding"], ["orders"]),
     "C10": (["margin", "margin_zero"], ["orders"]),
-    "C11": (["margin"], ["margin_zero", "margin_fee"]),
+    "C11": (["margin", "margin_partial"], ["margin_zero", "margin_fee"]),
 }
 REACH_FOR = {
     "orders": ["Reach_Completed", "Reach_Rejected"],
@@ -335,9 +342,13 @@ def random_cfg(rng: random.Random, profile: str) -> dict:
         cfg["init"] = {s: rng.randint(5000, 9000) * cfg["scale"][s] // max(1, cfg["scale"][s] // 10) for s in syms}
         cfg["slip"] = True
         liq, lend = "share", "none"
+    if fee == "pct" and rng.random() < 0.15:
+        cfg["bigMinFee"] = True
     if fee == "pct":
         cfg["feeN"], cfg["feeD"] = rng.choice([(0, 1), (1, 1000), (25, 10000), (1, 100), (1, 10), (999, 1000)])
         cfg["minFeeN"], cfg["minFeeD"] = rng.choice([(0, 1), (0, 1), (1, 200), (1, 2), (3, 1)])
+        if cfg.get("bigMinFee"):
+            cfg["minFeeN"], cfg["minFeeD"] = rng.choice([300, 2000]), 1      # a minimum fee that small sells do not cover
     if liq == "share":
         cfg["vlN"], cfg["vlD"] = rng.choice([(1, 4), (1, 10), (1, 2), (3, 20), (1, 1), (0, 1)])  # terminating decimals only: the code works in Decimal
         cfg["vs"] = rng.choice([1, 1, 10])
@@ -526,6 +537,32 @@ def corpus() -> List[dict]:
             {"kind": "create_order", "arg": _req(type="stoplimit", op=op, amount=100, stop=stop, limit=limit)},
             {"kind": "bar", "arg": dict(zip("ohlc", b2), p=1, t=2, v=100000)},
             {"kind": "bar", "arg": dict(zip("ohlc", b3), p=1, t=3, v=400)}]})
+    # an order that fits the bar's liquidity but cannot be paid for must not consume liquidity: the next one still fits
+    cfg = base_cfg(init={"BTC": 0, "USD": 320}, liqMode="share", vlN=1, vlD=4, vs=1)
+    out.append({"cfg": cfg, "steps": [
+        {"kind": "bar", "arg": dict(p=1, t=1, o=10, h=10, l=10, c=10, v=100)},
+        {"kind": "create_order", "arg": _req(amount=20)}, {"kind": "create_order", "arg": _req(amount=10)},
+        {"kind": "bar", "arg": dict(p=1, t=2, o=13, h=13, l=13, c=13, v=100)}]})
+    # fill-or-kill orders whose amount is exactly the liquidity that is left
+    for ty in ("stop", "market"):
+        cfg = base_cfg(init={"BTC": 50, "USD": 1000}, liqMode="share", vlN=1, vlD=4, vs=1)
+        out.append({"cfg": cfg, "steps": [
+            {"kind": "bar", "arg": dict(p=1, t=1, o=10, h=10, l=10, c=10, v=100)},
+            {"kind": "create_order", "arg": _req(type=ty, amount=10, stop=10 if ty == "stop" else 0)},
+            {"kind": "create_order", "arg": _req(type="market", op="sell", amount=15)},
+            {"kind": "bar", "arg": dict(p=1, t=2, o=10, h=11, l=9, c=10, v=40)},
+            {"kind": "create_order", "arg": _req(type=ty, op="sell", amount=10, stop=10 if ty == "stop" else 0)},
+            {"kind": "bar", "arg": dict(p=1, t=3, o=10, h=11, l=9, c=10, v=100)}]})
+    # an auto-repay order that traded partially and is then cancelled still repays the loans it can afford
+    cfg = base_cfg(init={"BTC": 0, "USD": 100}, liqMode="share", vlN=1, vlD=2, vs=1, lendMode="margin", reqD=2,
+                   cond={"BTC": margin_cond("BTC", 0, 1, 1, 0, 1), "USD": margin_cond("USD", 0, 1, 1, 0, 1)})
+    out.append({"cfg": cfg, "steps": [
+        {"kind": "bar", "arg": dict(p=1, t=1, o=10, h=10, l=10, c=10, v=100)},
+        {"kind": "create_loan", "arg": {"sym": "BTC", "amount": 4}},
+        {"kind": "create_order", "arg": _req(type="limit", amount=6, limit=10, ar=True)},
+        {"kind": "bar", "arg": dict(p=1, t=2, o=10, h=10, l=10, c=10, v=4)},
+        {"kind": "cancel_order", "arg": 1},
+        {"kind": "bar", "arg": dict(p=1, t=3, o=10, h=10, l=10, c=10, v=4)}]})
     return out
 
 
